@@ -111,4 +111,79 @@ def mcopyRule (s : IState) : Done :=
           .next (setMem s3 (store (memOf s3) dst (load (memOf s3) src len)))
     | _ => .halt .StackUnderflow [] (adv s)
 
+/-! ## (b) CALLDATALOAD, CALLDATACOPY, CODECOPY, RETURNDATACOPY
+
+(CALLDATASIZE, CODESIZE, RETURNDATASIZE are rows of `EvmRules.envTable`.) A read behind the end of the source yields
+zeros (`Spec.Memory.paddedSlice`), except for RETURNDATACOPY, which halts (EIP-211). -/
+
+/-- CALLDATALOAD: δ = 1, α = 1, `G_verylow`; the 32 bytes of the input at `off`, zero-padded, big-endian -/
+def calldataloadRule (s : IState) : Done :=
+  unopRule GasCalc.VERYLOW (fun off => beNat (Spec.Memory.paddedSlice s.input off 32)) s
+
+/-- CALLDATACOPY / CODECOPY: δ = 3, α = 0, `G_verylow + G_copy · ⌈len / 32⌉` + expansion to `memOff + len`;
+`len = 0` touches nothing (not even for an absurd offset) -/
+def copyRule (data : List Nat) (s : IState) : Done :=
+  match s.stack.reverse with
+  | memOff :: dataOff :: len :: rest =>
+    let s1 := { adv s with stack := rest.reverse }
+    if U64 ≤ len then .halt .InvalidOperandOOG [] s1
+    else needGas s1 (Spec.GasCalc.copyCost len) fun s2 =>
+      if len = 0 then .next s2
+      else if U64 ≤ memOff then .halt .InvalidOperandOOG [] s2
+      else memAccess s2 memOff len fun s3 =>
+        .next (setMem s3 (store (memOf s3) memOff (Spec.Memory.paddedSlice data dataOff len)))
+  | _ => .halt .StackUnderflow [] (adv s)
+
+def calldatacopyRule (s : IState) : Done := copyRule s.input s
+/-- CODECOPY copies the contract's own bytes (without the analysis padding of the running buffer) -/
+def codecopyRule (s : IState) : Done := copyRule (s.code.take s.origLen) s
+
+/-- RETURNDATACOPY (EIP-211, Byzantium): as above from the return-data buffer, but reading behind its end is the
+exceptional halt `OutOfOffset` (checked after the copy cost is paid, also for `len = 0`; not in EOF code, which pads) -/
+def returndatacopyRule (s : IState) : Done :=
+  if !enabled s.spec GasCalc.SpecId.BYZANTIUM then .halt .NotActivated [] (adv s)
+  else match s.stack.reverse with
+    | memOff :: off :: len :: rest =>
+      let s1 := { adv s with stack := rest.reverse }
+      if U64 ≤ len then .halt .InvalidOperandOOG [] s1
+      else needGas s1 (Spec.GasCalc.copyCost len) fun s2 =>
+        if s.returnData.length < off + len ∧ !s.isEof then .halt .OutOfOffset [] s2
+        else if len = 0 then .next s2
+        else if U64 ≤ memOff then .halt .InvalidOperandOOG [] s2
+        else memAccess s2 memOff len fun s3 =>
+          .next (setMem s3 (store (memOf s3) memOff (Spec.Memory.paddedSlice s.returnData off len)))
+    | _ => .halt .StackUnderflow [] (adv s)
+
+/-! ## (c) STOP, RETURN, REVERT, INVALID: the frame ends
+
+`Done.halt r out s`: the frame's result is `r`, its output `out` (H_return), `s` the final machine state (its gas
+meter is what the caller gets back for `Return` / `Stop` / `Revert`; every other result forfeits it). -/
+
+/-- STOP: no gas, empty output -/
+def stopRule (s : IState) : Done := .halt .Stop [] (adv s)
+
+/-- INVALID (0xfe) -/
+def invalidRule (s : IState) : Done := .halt .InvalidFEOpcode [] (adv s)
+
+/-- an opcode byte that names no instruction -/
+def unknownRule (s : IState) : Done := .halt .OpcodeNotFound [] (adv s)
+
+/-- RETURN / REVERT: δ = 2, zero static gas, expansion to `off + len`; the output is `μ[off .. off + len)`;
+`len = 0` touches nothing -/
+def returnRule (r : IResult) (s : IState) : Done :=
+  match s.stack.reverse with
+  | off :: len :: rest =>
+    let s1 := { adv s with stack := rest.reverse }
+    if U64 ≤ len then .halt .InvalidOperandOOG [] s1
+    else if len = 0 then .halt r [] s1
+    else if U64 ≤ off then .halt .InvalidOperandOOG [] s1
+    else memAccess s1 off len fun s2 => .halt r (load (memOf s2) off len) s2
+  | _ => .halt .StackUnderflow [] (adv s)
+
+def retRule (s : IState) : Done := returnRule .Return s
+
+/-- REVERT (EIP-140): from Byzantium -/
+def revertRule (s : IState) : Done :=
+  if !enabled s.spec GasCalc.SpecId.BYZANTIUM then .halt .NotActivated [] (adv s) else returnRule .Revert s
+
 end Revm.Spec.EvmRules2
